@@ -185,7 +185,7 @@ fn block_urls(b: &DocumentBlock, out: &mut Vec<String>) {
 pub fn probe_keys(notes: &[(String, String)]) -> Vec<String> {
     let mut keys: BTreeSet<String> = BTreeSet::new();
     for (name, text) in notes {
-        let key = Key::from_file_name(name);
+        let key = Key::name(name);
         keys.insert(key.to_string());
         if let Ok(doc) = catch_unwind(AssertUnwindSafe(|| MarkdownReader::new().document(text))) {
             let mut urls = vec![];
@@ -207,7 +207,7 @@ fn ids(mut v: Vec<u64>) -> String {
 pub fn queries(graph: &Graph, keys: &[String]) -> String {
     let mut qs = vec![];
     for k in keys {
-        let key = Key::from_file_name(k);
+        let key = Key::name(k);
         let b = catch_unwind(AssertUnwindSafe(|| graph.get_block_references_to(&key))).map(ids).map_err(panic_msg);
         let i = catch_unwind(AssertUnwindSafe(|| graph.get_inline_references_to(&key))).map(ids).map_err(panic_msg);
         qs.push(gapp("QO", &[gstr(k), gres(b), gres(i)]));
@@ -300,7 +300,7 @@ pub fn execute(v: &Value) -> String {
             let io = format!("(Ok (IOB {} {}))", queries(graph, &keys), locations(graph));
             let mut ups = vec![];
             for (name, text) in &sorted {
-                let key = Key::from_file_name(name);
+                let key = Key::name(name);
                 let r = catch_unwind(AssertUnwindSafe(|| {
                     let mut g2 = graph.clone();
                     g2.update_key(key.clone(), text);
@@ -309,7 +309,7 @@ pub fn execute(v: &Value) -> String {
                 ups.push(gpair(&gstr(name), &gres(r.map_err(panic_msg))));
             }
             // the handler is asked for the note keys only (uris of plain ascii keys)
-            let note_keys: Vec<String> = sorted.iter().map(|(n, _)| Key::from_file_name(n).to_string()).filter(|k| plain_key(k)).collect();
+            let note_keys: Vec<String> = sorted.iter().map(|(n, _)| Key::name(n).to_string()).filter(|k| plain_key(k)).collect();
             (io, glist(&ups), handler_references(&notes, ext, &note_keys))
         }
     };
